@@ -185,12 +185,15 @@ def run(ctx: Ctx):
     rng = ctx.rng("alloc")
     cases: list[dict[str, Any]] = []
     kinds: list[str] = []
+    roles: list[list[str]] = []
     failed = {"riscv": 0, "test": 0}
+    failed["riscv-loops"] = 0
     n = 4000 if ctx.quick else 60000
-    for k in range(n):
-        which = "riscv" if k % 2 == 0 else "test"
+    n_loops = 1500 if ctx.quick else 25000
+    for k in range(n + n_loops):
+        which = "riscv-loops" if k >= n else ("riscv" if k % 2 == 0 else "test")
         try:
-            c = riscv_zero_aware(rng) if which == "riscv" else test_case(rng)
+            c = riscv_loop_case(rng) if which == "riscv-loops" else riscv_zero_aware(rng) if which == "riscv" else test_case(rng)
         except AssertionError as e:   # the allocator's own internal assertion: a reported failure, kept as divergence
             ctx.diverge("allocator assertion", which=which, error=str(e)[:100])
             continue
@@ -200,20 +203,26 @@ def run(ctx: Ctx):
             failed[which] += 1
             continue
         c.pop("failed")
+        roles.append(c.pop("role", []))
         cases.append(c)
         kinds.append(which)
     ctx.log(f"{len(cases)} allocated blocks ({failed} reported failures)")
     res = casecheck.run_cases("backend/RegAllocCases.tla", cases, min_per_shard=50)
     for idx, tail in res.mismatches:
         c = cases[idx]
-        ctx.violate(f"[{kinds[idx]}] {tail[0]}: ops {c['ops']} init {c['init']} registers {c['reg']} (before: {c['pre']}) pool {c['pool']}",
-                    {"clause": tail[0], "target": kinds[idx], "case": c}, clause=tail[0])
+        read_role = ""
+        if kinds[idx] == "riscv-loops" and tail[0] == "OperandStillInItsRegisterWhenRead":
+            f = first_clobbered_read(c)
+            if f is not None:
+                read_role = roles[idx][f[1] - 1] + " overwritten by " + (roles[idx][f[2] - 1] if f[2] else "nothing")
+        ctx.violate(f"[{kinds[idx]}] {tail[0]}{' (' + read_role + ')' if read_role else ''}: ops {c['ops']} init {c['init']} registers {c['reg']} (before: {c['pre']}) pool {c['pool']}",
+                    {"clause": tail[0], "target": kinds[idx], "clobbered": read_role, "case": c}, clause=tail[0])
     ctx.coverage.update({"evaluations": len(cases), "distinct_nontrivial": len({repr(c) for c in cases}), "reported_failures": failed, "judge_states": res.states,
                          "rule": "seeded single-block functions: RISC-V li/add/sub/mul/mv with pre-allocated arguments/results, zero constants, pools of 1-6 registers "
-                                 "(+infinite); test.allocatable with in/out/inout groups (inout = last use), 2-register pool (+infinite); distinct = distinct allocated blocks"})
+                                 "(+infinite); riscv_scf.for loops (0-2 carried variables, nesting depth 2) unrolled twice; test.allocatable with in/out/inout groups (inout = last use), 2-register pool (+infinite); distinct = distinct allocated blocks"})
     ctx.sample(cases[0])
     ctx.assumptions += ["an inout operand is used for the last time by that operation (the allocator's documented precondition)",
-                        "nested riscv_scf.for loops and the x86 allocator are not generated yet"]
+                        "loops are judged on two unrolled iterations; initial values of carried variables are dedicated copies as convert-scf-to-riscv-scf produces them; the x86 allocator is not generated yet"]
 
 
 def riscv_zero_aware(rng):
@@ -306,3 +315,205 @@ def _riscv(rng):
     return finish_case(block, before, [r.register_name.data for r in pool], set(), "j_", zero_pos)
 
 
+# ------------------------------------------------------------------ riscv_scf.for nests, unrolled for the register-file judge
+def _walk_values(block) -> list[Any]:
+    """Every value of a block tree in a fixed order (block arguments, then results, regions in place)."""
+    out = list(block.args)
+    for op in block.ops:
+        out.extend(op.results)
+        for r in op.regions:
+            for b in r.blocks:
+                out.extend(_walk_values(b))
+    return out
+
+
+def riscv_loop_case(rng) -> dict[str, Any] | None:
+    """A function with riscv_scf.for loops (iter_args, live-ins read in the body, bounds read in the body, nesting)
+    allocated by the real allocator.  The allocated function is unrolled by the harness into the straight-line
+    sequence of register reads and writes its lowering performs for two iterations of every loop (entry: iv := lb,
+    args := inits; back edge: reads iv, step, ub, writes iv, args := yields; exit: results := args); every dynamic
+    instance of a value gets its own id and the id's register is the register of the value."""
+    from xdsl.backend.register_allocatable import HasRegisterConstraints
+    from xdsl.backend.riscv.register_allocation import RegisterAllocatorLivenessBlockNaive
+    from xdsl.backend.riscv.register_stack import RiscvRegisterStack
+    from xdsl.dialects import riscv, riscv_func, riscv_scf, rv32
+    from xdsl.dialects.builtin import IntegerAttr, IntegerType, Signedness
+    from xdsl.dialects.riscv import IntRegisterType, Registers
+    from xdsl.ir import Block, Region
+    from xdsl.utils.exceptions import DiagnosticException
+
+    U = IntRegisterType.unallocated()
+    nargs = rng.randint(1, 2)
+    argregs = [Registers.A0, Registers.A1][:nargs]
+    block = Block(arg_types=argregs)
+
+    def simple(vals: list[Any], into: list[Any]) -> Any:
+        k = rng.choice(["li", "add", "add", "sub", "mul", "mv"])
+        if k == "li" or not vals:
+            op = rv32.LiOp(rng.choice([1, 2, 3, 5, 7]), rd=U)
+        elif k == "mv":
+            op = riscv.MVOp(rng.choice(vals), rd=U)
+        else:
+            cls = {"add": riscv.AddOp, "sub": riscv.SubOp, "mul": riscv.MulOp}[k]
+            op = cls(rng.choice(vals), rng.choice(vals), rd=U)
+        into.append(op)
+        return op.results[0]
+
+    def loop(avail: list[Any], into: list[Any], depth: int) -> list[Any]:
+        def bound() -> Any:
+            if avail and rng.random() < 0.6:
+                return rng.choice(avail)
+            return simple([], into)
+        lb, ub = bound(), bound()
+        step: Any = IntegerAttr(1, IntegerType(12, Signedness.SIGNED)) if rng.random() < 0.7 else bound()
+        n = rng.choice([0, 1, 1, 2])
+        inits: list[Any] = []
+        for _ in range(n):
+            # as produced by convert-scf-to-riscv-scf: the initial value of a carried variable is a dedicated copy that
+            # only the loop uses (the allocator puts it into the carried variable's register)
+            if avail and rng.random() < 0.6:
+                cp = riscv.MVOp(rng.choice(avail), rd=U)
+                into.append(cp)
+                inits.append(cp.rd)
+            else:
+                inits.append(simple(avail, into))
+        body = Block(arg_types=[U] * (1 + n))
+        bops: list[Any] = []
+        bvals = list(avail) + list(body.args)
+        defined: list[Any] = []
+        for _ in range(rng.randint(1, 4)):
+            if depth < 1 and rng.random() < 0.2:
+                res = loop(bvals, bops, depth + 1)
+                bvals += res
+                defined += res
+            else:
+                v = simple(bvals, bops)
+                bvals.append(v)
+                defined.append(v)
+        ys = []
+        for j in range(n):
+            cands = [v for v in defined if all(v is not w for w in ys)]
+            ys.append(rng.choice(cands) if cands and rng.random() < 0.85 else body.args[1 + j])
+        bops.append(riscv_scf.YieldOp(*ys))
+        body.add_ops(bops)
+        f = riscv_scf.ForOp(lb, ub, step, inits, Region(body))
+        into.append(f)
+        return list(f.results)
+
+    ops: list[Any] = []
+    vals: list[Any] = list(block.args)
+    for _ in range(rng.randint(0, 3)):
+        vals.append(simple(vals, ops))
+    for _ in range(rng.choice([1, 1, 2])):
+        vals += loop(vals, ops, 0)
+        for _ in range(rng.randint(0, 2)):
+            vals.append(simple(vals, ops))
+    mv = riscv.MVOp(rng.choice(vals), rd=Registers.A0)
+    ops += [mv, riscv_func.ReturnOp(mv.rd)]
+    block.add_ops(ops)
+    func = riscv_func.FuncOp("f", Region(block), (argregs, [Registers.A0]))
+    try:
+        func.verify()
+    except Exception:  # noqa: BLE001
+        return None
+    pool = rng.sample([Registers.T0, Registers.T1, Registers.T2, Registers.T3, Registers.T4, Registers.T5, Registers.T6, Registers.A2, Registers.A3],
+                      rng.choice([3, 4, 5, 6, 9]))
+    stack = RiscvRegisterStack.get(allocatable_registers=pool, allow_infinite=rng.random() < 0.3)
+    pre_names = [reg_name(v.type) for v in _walk_values(block)]
+    try:
+        RegisterAllocatorLivenessBlockNaive(stack).allocate_func(func)
+    except (DiagnosticException, NotImplementedError):
+        return {"failed": True}
+    after = _walk_values(block)
+    if len(after) != len(pre_names):
+        return None
+    pre_of = {id(v): pre_names[k] for k, v in enumerate(after)}
+    # unroll
+    reg: list[str] = []
+    pre: list[str] = []
+    cur: dict[int, int] = {}
+    micro: list[dict[str, Any]] = []
+
+    role: list[str] = []
+    role_of: dict[int, str] = {}
+
+    def new(v) -> int:
+        reg.append(reg_name(v.type))
+        pre.append(pre_of.get(id(v), ""))
+        role.append(role_of.get(id(v), "value"))
+        cur[id(v)] = len(reg)
+        return len(reg)
+
+    def rd(v) -> int:
+        return cur[id(v)]
+
+    init = [new(a) for a in block.args]
+
+    def emit(blk, skip_last: bool):
+        bl = list(blk.ops)
+        for op in (bl[:-1] if skip_last else bl):
+            if isinstance(op, riscv_scf.ForOp):
+                args = list(op.body.block.args)
+                y = op.body.block.last_op
+                role_of[id(args[0])] = "induction-variable"
+                for a in args[1:]:
+                    role_of[id(a)] = "carried-block-argument"
+                for r in op.results:
+                    role_of[id(r)] = "loop-result"
+                hdr = [op.lb, op.ub] + ([op.step_val] if op.step_val is not None else []) + list(op.iter_args)
+                micro.append({"ins": [rd(v) for v in hdr], "outs": [], "inouts": []})
+                micro.append({"ins": [rd(op.lb)], "outs": [new(args[0])], "inouts": []})          # iv := lb
+                for a, i in zip(args[1:], op.iter_args):
+                    micro.append({"ins": [rd(i)], "outs": [new(a)], "inouts": []})                # arg := init
+                micro.append({"ins": [rd(args[0]), rd(op.ub)], "outs": [], "inouts": []})          # bge iv, ub
+                for _it in range(2):
+                    emit(op.body.block, True)
+                    micro.append({"ins": [rd(v) for v in y.operands], "outs": [], "inouts": []})   # the yielded values are read
+                    back = [rd(args[0])] + ([rd(op.step_val)] if op.step_val is not None else [])
+                    micro.append({"ins": back, "outs": [new(args[0])], "inouts": []})              # iv := iv + step
+                    micro.append({"ins": [rd(args[0]), rd(op.ub)], "outs": [], "inouts": []})      # blt iv, ub
+                    srcs = [rd(v) for v in y.operands]                                             # block arguments are passed in parallel
+                    for a, sv in zip(args[1:], srcs):
+                        micro.append({"ins": [sv], "outs": [new(a)], "inouts": []})
+                for r, a in zip(op.results, args[1:]):
+                    micro.append({"ins": [rd(a)], "outs": [new(r)], "inouts": []})                 # results := args at exit
+                continue
+            for r in op.results:
+                pass
+            if isinstance(op, HasRegisterConstraints):
+                ins, outs, inouts = op.get_register_constraints()
+                m = {"ins": [rd(v) for v in ins], "outs": [], "inouts": []}
+                pairs = [(rd(a), b) for a, b in inouts]
+                m["outs"] = [new(v) for v in outs]
+                m["inouts"] = [[a, new(b)] for a, b in pairs]
+                micro.append(m)
+            else:
+                m = {"ins": [rd(v) for v in op.operands], "outs": []}
+                m["outs"] = [new(v) for v in op.results]
+                m["inouts"] = []
+                micro.append(m)
+
+    emit(block, False)
+    inf = [1 if r.startswith("j_") else 0 for r in reg]
+    return {"failed": False, "ops": micro, "init": init, "reg": reg, "pre": pre, "pool": [r.register_name.data for r in pool], "inf": inf,
+            "zero": [0] * len(reg), "role": role}
+
+
+def first_clobbered_read(c: dict[str, Any]) -> tuple[int, int, int] | None:
+    """(micro-op index, value read, value found in its register) of the first failing read - the same walk as
+    RegAlloc.tla's ExecFrom, used only to describe a violation TLC reported."""
+    rf: dict[str, int] = {}
+
+    def write(vals):
+        for v in vals:
+            r = c["reg"][v - 1]
+            if r != "zero":
+                rf[r] = v
+    write(c["init"])
+    for i, o in enumerate(c["ops"]):
+        for v in o["ins"] + [p[0] for p in o["inouts"]]:
+            r = c["reg"][v - 1]
+            if r != "zero" and rf.get(r) != v:
+                return i, v, rf.get(r, 0)
+        write(o["outs"] + [p[1] for p in o["inouts"]])
+    return None
